@@ -103,3 +103,35 @@ func scenario(crash bool) {
 
 func VF_C10_Clean() { scenario(false) }
 func VF_C10_Crash() { scenario(true) }
+
+// a catalog larger than one page: a 40-column table with long column names, restart, a small table created
+// after it (its column rows land partly in the free tail of the first catalog page, partly behind the rows
+// of the wide table), restart again
+func VF_C10_WideCatalog() {
+	r := sysx.OpenReal("vfc10", 200)
+	var wide []sysx.ColDef
+	types3 := []types.TypeID{types.Integer, types.Varchar, types.Float}
+	for i := 0; i < 40; i++ {
+		name := "column_with_a_rather_long_name_number_" + string(rune('a'+i/10)) + string(rune('0'+i%10))
+		wide = append(wide, sysx.ColDef{name, types3[i%3], index_constants.IndexKindInvalid})
+	}
+	wide[0].Type = types.Integer
+	shapes = append(shapes, wide, []sysx.ColDef{{"a", types.Integer, index_constants.IndexKindInvalid}, {"b", types.Varchar, index_constants.IndexKindInvalid}, {"c", types.Float, index_constants.IndexKindInvalid}, {"d", types.Integer, index_constants.IndexKindInvalid}})
+	all := []*tbl{create(r, "wide", len(shapes)-2)}
+	audit(r, all, "before restart")
+	restart := func() {
+		if vf.Choose(2) == 1 {
+			r.Sdb.ShutdownForTescase()
+		} else {
+			r.Sdb.Shutdown()
+		}
+		r = sysx.OpenReal("vfc10", 200)
+	}
+	restart()
+	audit(r, all, "after restart")
+	all = append(all, create(r, "s", len(shapes)-1))
+	audit(r, all, "after create following restart")
+	restart()
+	audit(r, all, "after second restart")
+	vf.Cover("c10.wide-catalog")
+}
